@@ -427,14 +427,16 @@ class Device(nfc.clf.device.Device):
                 elif (len(data) >= 18 and data[1] == len(data)-1 and
                       data[0] == 0xF0 and data[2:4] == b'\xD4\x00'):
                     target = nfc.clf.LocalTarget(
-                        brty, atr_res=target.atr_res, atr_req=data[2:])
+                        brty, atr_res=target.atr_res, atr_req=data[2:],
+                        _addr=addr)
             elif brty in ('212F', '424F') and data[0] == len(data):
                 if data.startswith(b'\x06\x00'):
                     init = (brty, data, addr)
                     target = self._listen_ttf(target, time_to_return, init)
                 elif len(data) >= 17 and data[1:3] == b'\xD4\x00':
                     target = nfc.clf.LocalTarget(
-                        brty, atr_res=target.atr_res, atr_req=data[1:])
+                        brty, atr_res=target.atr_res, atr_req=data[1:],
+                        _addr=addr)
 
             if target and target.atr_req:
                 target.atr_res = atr_res
